@@ -128,6 +128,26 @@ struct variant {
   using apply = typename concat_type_lists_t<Lists...>::template apply<Variant>;
 };
 
+template <typename... Ts>
+struct is_nonempty : std::bool_constant<(sizeof...(Ts) != 0)> {};
+
+// Can Source deliver a materialized done signal, i.e. set_value(set_done)?
+// In general this is read off its value_types (a value pack that starts with
+// set_done). materialize() lists that pack unconditionally, so its sender
+// says precisely whether it can happen (materializes_done).
+template <typename Source, typename = void>
+struct materializes_done
+  : sender_value_types_t<
+        Source,
+        variant<is_nonempty>::template apply,
+        tuple<tag_t<set_done>, type_list>::template apply> {};
+
+template <typename Source>
+struct materializes_done<
+    Source,
+    std::void_t<decltype(Source::materializes_done)>>
+  : std::bool_constant<Source::materializes_done> {};
+
 template <typename Source>
 struct _sender {
   class type;
@@ -173,7 +193,10 @@ public:
       variant<append_error_types<Variant>::template apply>::template apply,
       tuple<tag_t<set_error>, single_type_t>::template apply>;
 
-  static constexpr bool sends_done = sender_traits<Source>::sends_done;
+  // done is sent if Source sends done itself or if it can deliver a
+  // materialized done signal, which is turned back into set_done here
+  static constexpr bool sends_done = sender_traits<Source>::sends_done ||
+      materializes_done<Source>::value;
 
   static constexpr blocking_kind blocking = sender_traits<Source>::blocking;
 
